@@ -110,6 +110,31 @@ int main(int argc, char **argv) {
   if (!strcmp(m, "pause")) {
     for (;;) pause();
   }
+  if (!strcmp(m, "pidwalk") && argc >= 3) {
+    // walks the pid counter of this pid namespace (made small through pid_max) with forks that exit at once, until the
+    // next process created will get pid P: first lap finds the pid handed out right before P, second lap stops there
+    int P = atoi(argv[2]), prev = -1, pred = -1;
+    for (int i = 0; i < 4096; i++) {
+      pid_t c = fork();
+      if (c == 0) _exit(0);
+      if (c < 0) _exit(93);
+      int st;
+      waitpid(c, &st, 0);
+      if (c == pred) _exit(0); // the next pid handed out is P
+      if (c == P && prev >= 0) pred = prev;
+      prev = c;
+    }
+    _exit(94);
+  }
+  if (!strcmp(m, "apause") && argc >= 3) {
+    // one path system call (the nonce is the name) for handlers that read the path, then as "pause"
+    access(argv[2], F_OK);
+    for (;;) pause();
+  }
+  if (!strcmp(m, "aexit") && argc >= 4) {
+    access(argv[3], F_OK);
+    _exit(atoi(argv[2]));
+  }
   if (!strcmp(m, "stopcont") && argc >= 4) {
     // job-control stop of the main process, continued by a child a little later, then the chosen ending
     pid_t me = getpid();
